@@ -13,7 +13,8 @@ meta = json.load(open(os.path.join(seed, "meta%s.json" % k)))
 env = dict(os.environ, GOFLAGS="-mod=mod", GOPROXY="off", GOSUMDB="off", GOTOOLCHAIN="local")
 PKGDIR = {"collector": "pkg/collector", "exporter": "pkg/exporter", "exporter_test": "pkg/exporter", "entities": "pkg/entities",
           "entities_test": "pkg/entities", "intermediate": "pkg/intermediate", "main": "cmd/collector", "collector_test": "pkg/collector",
-          "producer": "pkg/kafka/producer", "registry": "pkg/registry", "test": "pkg/test"}
+          "producer": "pkg/kafka/producer", "registry": "pkg/registry", "test": "pkg/kafka/producer/convertor/test",
+          "consumer": "pkg/kafka/consumer"}
 RUN = {"pkg/collector": "-run 'TestCollectingProcess_|TestFakeAfterFunc|TestTCPCollectingProcess_|TestUDPCollectingProcess_(DecodePacketError|ReceiveDataRecord|ReceiveTemplateRecord|TemplateAddAndDelete|TemplateExpire|TemplateUpdate)'",
        "pkg/exporter": "-run 'TestExportingProcess_|TestInitExportingProcessWithTLS'"}
 
@@ -29,7 +30,9 @@ if os.path.isdir(src):
     print("demo is a directory; run manually")
     sys.exit(2)
 pkg = re.search(r"^package\s+(\w+)", open(src).read(), re.M).group(1)
-dest_dir = PKGDIR[pkg]
+dest_dir = PKGDIR.get(pkg, "pkg/" + pkg)
+created_dir = not os.path.isdir(os.path.join(wt, dest_dir))
+os.makedirs(os.path.join(wt, dest_dir), exist_ok=True)
 dest = os.path.join(wt, dest_dir, "zz_seed_demo%s_test.go" % k)
 m = re.search(r"-run\s+'?\"?([^'\"\s]+)", meta["demo_cmd"])
 run = m.group(1) if m else "."
@@ -44,9 +47,12 @@ rc, out = sh("go test -vet=off -count=1 -run '%s' ./%s/" % (run, dest_dir))
 res["demo_fails_with_patch"] = rc != 0
 res["demo_output_tail"] = out[-400:]
 os.remove(dest)
+if created_dir:
+    os.rmdir(os.path.join(wt, dest_dir))
 touched = sorted({os.path.dirname(l.strip()) for l in sh("git diff --name-only")[1].splitlines() if l.strip().endswith(".go")})
 ok = True
 tested = []
+touched = [d for d in touched if d != "pkg/kafka/producer"] + (["pkg/kafka/producer/convertor/test"] if "pkg/kafka/producer" in touched else [])
 for d in touched + [x for x in ("pkg/entities", "pkg/collector", "pkg/exporter", "pkg/intermediate") if x not in touched]:
     if not os.path.isdir(os.path.join(wt, d)):
         continue
@@ -55,7 +61,7 @@ for d in touched + [x for x in ("pkg/entities", "pkg/collector", "pkg/exporter",
     if rc != 0:
         ok = False
         res["existing_test_failure"] = d + ": " + out[-600:]
-rc, out = sh("go build ./...")
+rc, out = sh("go build ./pkg/... ./cmd/...")
 res["builds"] = rc == 0
 res["existing_tests_pass_with_patch"] = ok
 res["tested_packages"] = tested
